@@ -549,3 +549,108 @@ func ruleWidths(r *Report) {
 		h.Check(and && or, "writeSwap", r.P.Pos(fn.Pos()), "header := header&0xf0 | Put", "writeSwap does not rewrite the operation nibble to Put while keeping the size/flag bits")
 	}
 }
+
+// ruleMergeReentrant (C09.reentrant): the block latch serialises one block only, so commits to
+// different blocks of one column run the column's merge function concurrently. The merge
+// functions the library itself installs (default numeric/string merges, the record column's
+// decode-merge-encode closure) must therefore not use mutable state captured from the
+// constructor: a captured variable may only be read, called (function values), or be a
+// sync.Pool used through Get/Put.
+func ruleMergeReentrant(r *Report) {
+	h := r.Rule("C09.reentrant", "def-use", "the merge functions the library installs in a column are re-entrant across blocks: they neither store into nor call methods on state captured from the column's constructor (except sync.Pool Get/Put and calling captured function values)", 3)
+	seen := map[*ssa.Function]bool{}
+	check := func(f *ssa.Function, where ssa.Instruction) {
+		if f == nil || seen[f] {
+			return
+		}
+		seen[f] = true
+		var bad ssa.Instruction
+		why := ""
+		isCaptured := func(v ssa.Value) *ssa.FreeVar {
+			for i := 0; i < 4 && v != nil; i++ {
+				switch x := v.(type) {
+				case *ssa.FreeVar:
+					return x
+				case *ssa.UnOp:
+					v = x.X
+				case *ssa.ChangeInterface:
+					v = x.X
+				case *ssa.MakeInterface:
+					v = x.X
+				case *ssa.TypeAssert:
+					v = x.X
+				default:
+					return nil
+				}
+			}
+			return nil
+		}
+		allInstrs(f, func(ins ssa.Instruction) {
+			switch x := ins.(type) {
+			case *ssa.Store:
+				if fv := isCaptured(x.Addr); fv != nil {
+					bad, why = ins, "stores into captured variable "+fv.Name()
+				}
+			case *ssa.Call, *ssa.Defer:
+				cc, _, _ := callCommon(ins)
+				var recv ssa.Value
+				switch {
+				case cc.IsInvoke():
+					recv = cc.Value
+				case cc.StaticCallee() != nil && cc.StaticCallee().Signature.Recv() != nil && len(cc.Args) > 0:
+					recv = cc.Args[0]
+				}
+				if recv == nil {
+					return
+				}
+				fv := isCaptured(recv)
+				if fv == nil {
+					return
+				}
+				t := fv.Type()
+				if pt, ok := t.(*types.Pointer); ok {
+					t = pt.Elem()
+				}
+				if isNamed(t, "sync", "Pool") {
+					return
+				}
+				bad, why = ins, "calls a method on captured variable "+fv.Name()+" (shared by the commits of all blocks)"
+			}
+		})
+		n := fnName(f)
+		if bad != nil {
+			h.Bad(n, r.P.InstrPos(bad), "the merge function "+why+": merges applied concurrently to different blocks of the column corrupt each other's operands")
+		} else {
+			h.OK(n, r.P.Pos(f.Pos()), "uses no mutable captured state")
+		}
+	}
+	// every function value stored into a field named Merge of an option[T] by library code
+	for fn := range r.P.modFunc {
+		if fn.Origin() != nil && fn.Parent() == nil {
+			continue
+		}
+		allInstrs(fn, func(ins ssa.Instruction) {
+			st, ok := ins.(*ssa.Store)
+			if !ok {
+				return
+			}
+			fr, ok := fieldOf(st.Addr)
+			if !ok || fr.Field != "Merge" || fr.Struct != "column.option" {
+				return
+			}
+			v := st.Val
+			if ld, isLd := v.(*ssa.UnOp); isLd {
+				v = throughCell(ld)
+			}
+			if f := asFunc(v); f != nil && r.P.InLib(f) {
+				check(originOrSelf(f), ins)
+			}
+		})
+	}
+}
+
+func originOrSelf(f *ssa.Function) *ssa.Function {
+	// closures inside instantiated generics: analyse the corresponding closure of the origin when
+	// it exists, otherwise the instance itself
+	return f
+}
